@@ -1562,6 +1562,18 @@ fn scenario_arbiter(sc: &str) -> Result<Violations, String> {
     }
     // once everything is resolved a newly registered arbiter is sent nothing, and the resolved notices are gone
     if order.iter().cloned().collect::<std::collections::HashSet<usize>>().len() == nconf {
+        // a writer that read the key BEFORE the conflict (version 1) and missed the resolution is not applied silently: its write conflicts again (queued for the arbiter), the key
+        // keeps the arbiter's decision
+        if !away {
+            let decided = db.get_value("k".into()).map(|e| e.value).unwrap_or_default();
+            let late = set_key_value("k".into(), "late".into(), 1, &db, &dbs);
+            let now = db.get_value("k".into()).map(|e| e.value).unwrap_or_default();
+            chk(&mut v, "C13.notice-names-the-version-the-key-holds", is_err(&late) && now == decided);
+            chk(&mut v, "C13.set-arbiter", is_err(&late) && now == decided);
+            // (settle that conflict so that the checks below see an empty queue)
+            for n in drain(&mut arx) { let f: Vec<&str> = n.split(' ').collect(); if f.len() > 6 { let mut ch = Change::new("k".into(), f[6..].join(" "), f[3].parse().unwrap_or(0)); ch.opp_id = f[1].parse().unwrap_or(0); let _ = db.resolve_conflit(ch, &dbs); } }
+            drain(&mut arx2);
+        }
         let (arb3, mut arx3) = Client::new_empty_and_receiver();
         db.register_arbiter(&arb3);
         chk(&mut v, "C13.redeliver", drain(&mut arx3).is_empty());
@@ -1910,6 +1922,7 @@ fn scenario_resync(sc: &str) -> Result<Violations, String> {
     use nundb::replication_ops::get_pendding_opps_since;
     let p: Vec<&str> = sc.split('|').collect();
     if p.len() == 4 && p[0] == "inc" { return scenario_resync_incremental(&p); }
+    if sc == "interleave" { return scenario_resync_interleave(); }
     if p.len() != 3 { return Err("bad resync scenario".into()); }
     let vals = ["v", "two words", "7 up", "x", "ação ✓"];
     let val = vals[p[1].parse::<usize>().map_err(|_| "bad value idx")?];
@@ -2004,8 +2017,47 @@ fn scenario_resync_incremental(p: &[&str]) -> Result<Violations, String> {
     chk(&mut v, "C05.incremental-sync-line-carries-version", ja.as_ref().map_or(false, |e| e.value == pa.value && e.version == pa.version && e.state != ValueStatus::Deleted));
     Ok(v)
 }
+/// one FORCED interleaving (the sequential contracts declare interleavings undecided): the joiner's `replicate-since-to` reaches the supervisor while the replication thread owns the
+/// cluster state and hands a live write to the members.  Whatever the synchronisation then says about the key must not be OLDER than the write the joiner was already handed: the
+/// supervisor computes the list under the same lock the live fan-out holds
+fn scenario_resync_interleave() -> Result<Violations, String> {
+    use nundb::replication_ops::{get_replicate_message, start_replication_supervisor};
+    let (rs, rr): (Sender<String>, Receiver<String>) = channel(1000);
+    let (ss, sr): (Sender<String>, Receiver<String>) = channel(1000);
+    std::mem::forget(rr);
+    let dbs = Arc::new(Databases::new("u".into(), "p".into(), "p:1".into(), "p:1".into(), ss.clone(), rs, HashMap::new(), 1, true));
+    dbs.node_state.swap(ClusterRole::Primary as usize, std::sync::atomic::Ordering::Relaxed);
+    let w = World { dbs: dbs.clone() };
+    let (mut admin, mut arx) = Client::new_empty_and_receiver();
+    for c in ["auth u p", "create-db d tok newer", "use-db d tok", "set k before"] { run_cmd(&w, &mut admin, &mut arx, c); }
+    let (ms, mut mr): (Sender<String>, Receiver<String>) = channel(1000);
+    dbs.add_cluster_member(ClusterMember { name: "j:1".into(), role: ClusterRole::Secoundary, sender: Some(ms) });
+    let d2 = dbs.clone();
+    std::thread::spawn(move || { futures::executor::block_on(start_replication_supervisor(sr, d2, Arc::new("p:1".to_string()))); });
+    let mut v: Violations = vec![];
+    {
+        let state = dbs.cluster_state.lock().unwrap();
+        ss.clone().try_send("replicate-since-to j:1 0".to_string()).map_err(|e| e.to_string())?;
+        std::thread::sleep(std::time::Duration::from_millis(300));
+        run_cmd(&w, &mut admin, &mut arx, "set k after");
+        let message = get_replicate_message("d".to_string(), "k".to_string(), "after".to_string(), -1);
+        for (name, member) in state.members.lock().unwrap().iter() {
+            let line = dbs.register_pending_opp(1, message.clone(), name);
+            if let Some(snd) = &member.sender { let _ = snd.clone().try_send(line); }
+        }
+    }
+    std::thread::sleep(std::time::Duration::from_millis(400));
+    let link = drain(&mut mr);
+    let about_k: Vec<&String> = link.iter().filter(|m| m.contains("replicate d k ")).collect();
+    if std::env::var("VERIF_TRACE").is_ok() { eprintln!("on the joiner's link: {:?}", link); }
+    // the synchronisation was served, and the last thing the joiner is told about k is the value the primary holds
+    chk(&mut v, "C05.sync-is-not-older-than-what-the-joiner-already-got", !about_k.is_empty() && about_k.last().map_or(false, |m| m.ends_with("after")) && about_k.len() >= 2);
+    let _ = ss.clone().try_send("exit x".to_string());
+    std::mem::forget(arx);
+    Ok(v)
+}
 fn all_resync_scenarios() -> Vec<String> {
-    let mut out = vec![];
+    let mut out = vec!["interleave".to_string()];
     for vi in 0..5 { for e in ["0", "1"] { for g in ["0", "1"] { out.push(format!("inc|{}|{}|{}", vi, e, g)); } } }
     for st in ["none", "newer", "arbiter"] { for vi in 0..5 { for g in ["0", "1"] { out.push(format!("{}|{}|{}", st, vi, g)); } } }
     out
